@@ -644,6 +644,8 @@ class Node:
                 f"`before=node` ({before._parent}) "
                 f"must be a child of target node ({self})"
             )
+        if self._children is None:
+            assert before in (None, True, int, False), before
 
         source_node = None
         factory = self._tree._node_factory
@@ -680,7 +682,6 @@ class Node:
 
         children = self._children
         if children is None:
-            assert before in (None, True, int, False)
             self._children = [node]
         elif isinstance(before, int):
             children.insert(before, node)
@@ -804,6 +805,8 @@ class Node:
                 f"`before=node` ({before._parent}) "
                 f"must be a child of target node ({new_parent})"
             )
+        if new_parent._children is None:
+            assert before in (None, True, False, 0), before
 
         if new_parent is not self._parent:
             for c in new_parent.children:
@@ -824,7 +827,6 @@ class Node:
 
         target_siblings = new_parent._children
         if target_siblings is None:
-            assert before in (None, True, False, 0), before
             new_parent._children = [self]  # type: ignore
         elif isinstance(before, Node):
             assert before._parent is new_parent, before
